@@ -156,7 +156,11 @@ def run_verus_once(path, extra, timeout):
         if not l.startswith('{'): continue
         try: d = json.loads(l)
         except Exception: continue
-        if d.get('level') == 'error' and d.get('spans'):
+        if d.get('level') == 'error' and d.get('spans') and (d.get('code') or re.search(r'not supported|unsupported|Could not automatically infer triggers|trigger does not cover|use of moved value|cannot find|mismatched types|expected|unresolved|borrow', d['message'])):
+            # a rustc / Verus front-end error: the assembled text does not compile on this tree (unsupported construct or misplaced ghost code): never a property violation
+            sp0 = d['spans'][0]
+            hard.append('the assembled text is rejected before verification: %s (assembled line %d: %s)' % (d['message'], sp0['line_start'], (sp0['text'][0]['text'].strip()[:120] if sp0.get('text') else '')))
+        elif d.get('level') == 'error' and d.get('spans'):
             diags.append(dict(message=d['message'], spans=[dict(line_start=s['line_start'], line_end=s['line_end'], col=s['column_start'],
                                                               is_primary=s['is_primary'], label=s.get('label'),
                                                               text=(s['text'][0]['text'].strip() if s.get('text') else '')) for s in d['spans']],
@@ -240,20 +244,21 @@ def run_unit(name, tier='quick', use_cache=True, extra_args=(), log=print):
         it, fn, mk, clause, primary = attribute(d, asm.items, marks, lines)
         tags = mk[1] if mk and mk[1] else []
         label = mk[2] if mk and mk[1] else None
+        attr = 'marker' if tags else None
         if not tags and it:
             # unlabelled site (assert / lemma call / callee precondition in a body): classify the failed clause text, then the site text
             rules = load_rules(it['module'])
             for txt in ([clause['text']] if clause else []) + [sp['text'] for sp in d['spans'] if not sp.get('is_primary')] + [primary['text']]:
                 for rx, tg, lb in rules:
                     if tg and re.search(rx, txt or ''):
-                        tags = tg.split(); label = lb + ' (site: ' + (primary['text'] or '')[:80] + ')'; break
+                        tags = tg.split(); label = lb + ' (site: ' + (primary['text'] or '')[:80] + ')'; attr = 'rules'; break
                 if tags: break
         if not tags:
-            tags = it.get('default_tags', []) if it else []
+            tags = it.get('default_tags', []) if it else []; attr = 'default'
         rl = 'Resource limit' in d['message'] or 'rlimit' in d['message']
         failures.append(dict(message=d['message'], module=it['module'] if it else None, item=it['key'] if it else None, fn=fn,
                              marker_line=mk[0] if mk else None, label=label or ((mk[2] + ' of ' if mk and mk[2] else '') + 'implicit obligations of %s' % (it['key'] if it else '?')),
-                             tags=tags, rlimit=rl, line=primary['line_start'], text=primary['text'][:300],
+                             tags=tags, attr=attr, rlimit=rl, line=primary['line_start'], text=primary['text'][:300],
                              clause=(clause['text'][:300] if clause else None), rendered=d.get('rendered', '')[:3000],
                              item_changed=bool(it and it.get('changed_tokens'))))
     ur = UnitResult()
